@@ -91,7 +91,7 @@ func genC16(r *Rng, tier string) []Case {
 	rd := r.Fork("dn")
 	types := []string{"CN", "OU", "DC", "DC", "DC", "O", "L", "dc", "DCX", "D", "C", "UID"}
 	valAlpha := []byte("abcDC=,\\+#;\"<> .xyz0-")
-	dnsAlpha := []byte("abcdefxyz0123-_")
+	dnsAlpha := []byte("abcdefxyzDCdcN0123-_") // labels may begin with the letters of an attribute type ("DC=dc01", "DC=CDC")
 	for i := 0; i < n; i++ {
 		k := rd.Intn(7)
 		var parts, spec []string
@@ -100,6 +100,9 @@ func genC16(r *Rng, tier string) []Case {
 			var v []byte
 			if t == "DC" {
 				v = rd.BytesFrom(rd.Intn(8), dnsAlpha)
+				if rd.Intn(5) == 0 { // any value text: the specification decides which of these it speaks about
+					v = rd.BytesFrom(rd.Intn(10), valAlpha)
+				}
 			} else {
 				v = rd.BytesFrom(rd.Intn(10), valAlpha)
 				if rd.Intn(4) == 0 {
